@@ -321,7 +321,10 @@ def main():
         its = its[:NCAT] + its[NCAT::(9 if tier == "quick" else 3)]
     stats = {"tok": 0, "inj": 0, "shim": 0, "aborted_calls": 0, "leak-tok": 0, "leak-inj": 0}
     shim_out = []
+    dbg_leg = os.environ.get("C07_LEG") == "dbg"
     for idx in range(shard, len(its), nshards):
+        if dbg_leg and (its[idx][0] == "shim" or idx % 2):
+            continue
         print("CUR %d" % idx, flush=True)
         r = run_item(st, mode, its[idx])
         stats[r["kind"]] = stats.get(r["kind"], 0) + 1
